@@ -614,8 +614,17 @@ func damageOne(raw []byte, fmtName string, toks []sealedTok, dmg []ctnDamage, ba
 				case "foreignhash": // another hash function, correct digest
 					h, _ := multihash.Sum(data, multihash.SHA2_512, -1)
 					nc = cid.NewCidV1(cid.DagCBOR, h)
-				case "cidhash2": // another hash function, digest of something else
-					h, _ := multihash.Sum(append([]byte("x"), data...), multihash.SHA2_512, -1)
+				case "cidhash2": // another hash function, digest of something else - also a TRUNCATED sha2-256 digest of something else
+					other := append([]byte("x"), data...)
+					h, _ := multihash.Sum(other, multihash.SHA2_512, -1)
+					if ln := []int{-1, 16, 4, 1}[(k+len(data))%4]; ln > 0 {
+						for salt := byte(0); ; salt++ {
+							h, _ = multihash.Sum(append([]byte{salt}, other...), multihash.SHA2_256, ln)
+							if right, _ := multihash.Sum(data, multihash.SHA2_256, ln); !bytes.Equal(h, right) {
+								break // (a one-byte digest of other data equals the right one once in 256 times: take the next salt)
+							}
+						}
+					}
 					nc = cid.NewCidV1(cid.DagCBOR, h)
 				case "cidident": // identity multihash: the "digest" is arbitrary content, not the data
 					ids := [][]byte{[]byte("hello"), {}, data[:8]}
